@@ -1369,4 +1369,4 @@ TECHNIQUE = ("Lean 4 theorems over ℚ about the models of np.interp / linspace 
 LEVEL_TEXT = ("Kernel-checked over the rationals: the resampling positions start at 0, end at the branch length, are equally spaced with step ≤ the requested spacing, "
               "their number is ⌈L/d⌉+1; interpolation returns the first/last original at the ends and otherwise a convex combination of two consecutive originals "
               "(for coordinates and radii alike); in Euclidean 3-space (real square roots) a resampled branch is never longer than the original branch, for every spacing, both gap modes and every point count; smoothing keeps end points and node count; the re-assembly keeps every interior sample exactly once; the assembler's greedy pairing returns every branch once and every child once, each branch with a child lying exactly at its end point (whatever the order, also when several children lie at one place).")
-LEVEL_NOTE = "Trusted: Lean kernel; rational models tied by correspondence with tolerance; float rounding, square roots, scipy convolve (the assembler's greedy pairing is modelled and tied by c16.pair)."
+LEVEL_NOTE = "Trusted: Lean kernel; rational models - proved equal to the per-branch routines, the assembler loop and the tree-level Resampler / TreeSmoother drivers as translated from the source - and compared with the float results with tolerance; float rounding, square roots, scipy convolve (the assembler's greedy pairing is modelled and tied by c16.pair)."
